@@ -42,7 +42,7 @@ def obligations(tier: str) -> list[dict]:
                             ('mgr2x1', ['m0', 'm1', 'w0', 'w536870912']), ('mgr1x2', ['m0', 'w0', 'w1'])):
             for sh in ('map2', 'nested', 'next3'):
                 for kind in (('detached', 'attached') if topo.startswith('flat') else ('detached',)):
-                    obs.append(ob('%s-%s/%s/crash1/K1' % (topo, kind, sh), topo, [sh], 'crash', 1, 3000, crashes=1,
+                    obs.append(ob('%s-%s/%s/crash1/K1' % (topo, kind, sh), topo, [sh], 'crash', 1, 600, crashes=1,
                                   crash_nodes=nodes, kind=kind, maxrank=1))
-            obs.append(ob('%s/map2/crash2/K0' % topo, topo, ['map2'], 'crash', 0, 3000, crashes=2, crash_nodes=nodes))
+            obs.append(ob('%s/map2/crash2/K0' % topo, topo, ['map2'], 'crash', 0, 600, crashes=2, crash_nodes=nodes))
     return obs
